@@ -142,11 +142,18 @@ def types_variant(path, out, rnd, schema_path, idx=None):
     used = {f.get("type") for f in sroot.find("fields")}
     ts_used = [t for t in ts if t.get("name") in used] or ts
     casts = ["Raw", "Int", "Float", "String", "Bool", "Time"]
-    t = rnd.choice(ts_used)
-    t.set("cast", casts[idx % len(casts)] if idx is not None else rnd.choice(casts))
-    if idx is not None and idx % 2 == 0:   # and a second type, so that two casts differ from the shipped mapping at once
-        t2 = rnd.choice(ts_used)
-        t2.set("cast", casts[(idx // 2 + 3) % len(casts)])
+    if idx is None:
+        rnd.choice(ts_used).set("cast", rnd.choice(casts))
+    else:
+        # two casts differ from the shipped mapping at once: one on a type that has fields with enumerated values (what such a
+        # field is in the generated package depends on its cast - a Bool cast makes it a plain bool field), one on a type without
+        enum_types = {f.get("type") for f in sroot.find("fields") if f.findall("value") and f.get("type") != "BOOLEAN"}
+        te = [t for t in ts_used if t.get("name") in enum_types]
+        tp = [t for t in ts_used if t.get("name") not in enum_types]
+        if te:
+            rnd.choice(te).set("cast", casts[(idx + 4) % len(casts)])
+        if tp:
+            rnd.choice(tp).set("cast", casts[idx % len(casts)])
     ET.ElementTree(root).write(out)
 
 
@@ -209,7 +216,7 @@ def check(prop, tier, seed):
         p = os.path.join(xdir, "variant-%d.xml" % i)
         ET.ElementTree(root).write(p)
         jobs.append((gendrv, fixgen, p, types, "variant-%d:%s" % (i, "+".join(e["op"] for e in sc_["script"]) or "none"), sc_["accept"], None, True))
-    for i in range(16 if quick else 112):
+    for i in range(24 if quick else 112):
         kind = ["rename", "addfield", "addmessage", "typemap", "moveframing", "deepgroup", "samegroup", "typemap"][i % 8]
         p = os.path.join(xdir, "extra-%d.xml" % i)
         tp = small_t
